@@ -1786,7 +1786,7 @@ class CryptContext:
         return True, None
 
     #: secret used for dummy_verify()
-    _dummy_secret = "too many secrets"
+    _dummy_secret = "too many"  # NOTE: kept within the smallest truncate_size (8), see truncate_error
 
     @memoized_property
     def _dummy_hash(self):
